@@ -5,7 +5,7 @@ import ast
 import struct
 
 from ..consteval import CallVal, ConstEval, EnumVal, StructVal, Sym, enum_members, is_const
-from ..core import (AnalysisError, clone_ast, match_as_if, ap, atoms, call_attr, calls, facts, find_calls, kw, norm, src,
+from ..core import (AnalysisError, conditions, clone_ast, match_as_if, ap, atoms, call_attr, calls, facts, find_calls, kw, norm, src,
                     stores, walk, parent, enclosing_stmt)
 from ..miniinterp import run_block
 from ..tmplmodel import parse_template
@@ -252,6 +252,7 @@ def r1(ctx):
     # factory rows / idiom rows
     for m, v in spec_rows.items():
         where = ctx.w(pmod, v)
+        v = _row_value(repo, pmod, v)
         if isinstance(v, ast.Call) and as_pair(repo, pmod, v) is None:
             fname = ap(v.func)
             ctx.require(fname in ("_make_struct_spec", "_make_tuplecoord_spec"),
@@ -379,6 +380,21 @@ def r1(ctx):
                 ci_ = component_index(repo, us.module, us.node, comp, None)
                 if ci_ is not None:
                     idx[st.path] = ci_
+    if idx != {"cls.UNPACKERS": 0, "cls.PACKERS": 1}:
+        # the split may be written any other way (shared helper, loop, tuple return): interpret the decorator body on a
+        # two-row sample table and read the derived tables off the result
+        sample = {"K0": ("U0", "P0"), "K1": ("U1", "P1")}
+        env = {"cls": Sym("cls"), "cls.SPECS": sample}
+        try:
+            run_block(ConstEval(repo, us.module),
+                      [st for st in us.node.body if not (isinstance(st, ast.Expr) and isinstance(st.value, ast.Constant))], env)
+            for tbl in ("cls.UNPACKERS", "cls.PACKERS"):
+                got = env.get(tbl)
+                for comp_i in (0, 1):
+                    if isinstance(got, dict) and got == {k: v[comp_i] for k, v in sample.items()}:
+                        idx[tbl] = comp_i
+        except AnalysisError:
+            pass
     ctx.ob("C01.R1", "_unpack_specs: UNPACKERS=v[0], PACKERS=v[1]", idx == {"cls.UNPACKERS": 0, "cls.PACKERS": 1},
            us.where, f"derived tables take components {idx}")
     for meth, table in (("unpack", "UNPACKERS"), ("pack", "PACKERS")):
@@ -386,6 +402,69 @@ def r1(ctx):
         okk = any(isinstance(n, ast.Subscript) and ap(n.value) == f"cls.{table}" and ap(n.slice) == "data_type"
                   for n in walk(f.node))
         ctx.ob("C01.R1", f"TemplateDataPacker.{meth} dispatches on cls.{table}[data_type]", okk, f.where)
+
+
+class _Subst(ast.NodeTransformer):
+    def __init__(self, env):
+        self.env = env
+
+    def visit_Name(self, node):
+        return clone_ast(self.env[node.id]) if node.id in self.env else node
+
+
+def _row_value(repo, mod, v, depth=0):
+    """The expression a SPECS row stands for: module-level names are looked through, and so is a wrapper factory - a
+    module-level function whose body is one `return <expr>` (docstring / comments allowed) - with its parameters
+    replaced by the call's arguments."""
+    while depth < 6:
+        depth += 1
+        if isinstance(v, ast.Name):
+            nxt = repo.module_assign(mod, v.id)
+            if nxt is None:
+                return v
+            v = nxt
+            continue
+        if isinstance(v, ast.Call) and isinstance(v.func, ast.Name) and \
+                v.func.id not in ("_make_struct_spec", "_make_tuplecoord_spec", "_make_llsd_tuplecoord_spec"):
+            cands = [g for g in repo.funcs.get(v.func.id, []) if g.cls is None and g.parent_fn is None and g.module is mod]
+            if len(cands) != 1:
+                return v
+            body = [st for st in cands[0].node.body if not (isinstance(st, ast.Expr) and isinstance(st.value, ast.Constant))]
+            a = cands[0].node.args
+            if len(body) != 1 or not isinstance(body[0], ast.Return) or body[0].value is None or a.vararg or a.kwarg:
+                return v
+            params = [x.arg for x in a.posonlyargs + a.args]
+            env = dict(zip(params[len(params) - len(a.defaults):], a.defaults))
+            env.update(dict(zip(params, v.args)))
+            env.update({k.arg: k.value for k in v.keywords if k.arg in params})
+            if set(params) - set(env):
+                return v
+            new = _Subst(env).visit(clone_ast(body[0].value))
+            ast.copy_location(new, v)
+            ast.fix_missing_locations(new)
+            v = new
+            continue
+        return v
+    return v
+
+
+def _actual_of_param(caller, helper, pname):
+    """access path the (single) call of `helper` inside `caller` passes for the helper's parameter `pname`"""
+    a = helper.node.args
+    params = [x.arg for x in a.posonlyargs + a.args]
+    static = any((ap(d) or "") == "staticmethod" for d in helper.node.decorator_list)
+    if helper.cls is not None and not static and params:
+        params = params[1:]
+    if pname not in params:
+        return None
+    found = []
+    for c in calls(caller.node):
+        if (isinstance(c.func, ast.Attribute) and c.func.attr == helper.name) or (isinstance(c.func, ast.Name) and c.func.id == helper.name):
+            i = params.index(pname)
+            val = next((k.value for k in c.keywords if k.arg == pname), c.args[i] if i < len(c.args) else None)
+            if val is not None:
+                found.append(ap(val))
+    return found[0] if len(found) == 1 and found[0] else None
 
 
 def _var_alias(fn_node, name):
@@ -737,8 +816,13 @@ def r4(ctx):
         ctx.ob("C01.R4", "ack count written after the elements", w_ack.index(w_cnt[0]) > w_ack.index(w_elem[0]), ctx.w(sf, w_cnt[0]),
                "reader takes the count from the last byte")
         cntarg = w_cnt[0].args[1] if len(w_cnt[0].args) > 1 else None
-        ctx.ob("C01.R4", "ack count value is len(msg.acks)", isinstance(cntarg, ast.Call) and ap(cntarg.func) == "len"
-               and (ap(cntarg.args[0]) or "").endswith(".acks"), ctx.w(sf, w_cnt[0]))
+        counted = ap(cntarg.args[0]) if isinstance(cntarg, ast.Call) and ap(cntarg.func) == "len" and cntarg.args else None
+        wfn = fn_of[id(w_cnt[0])]
+        if counted and wfn is not sf and "." not in counted:
+            # the trailer is written by a helper: the counted name is its parameter, bound at the call site in serialize
+            counted = _actual_of_param(sf, wfn, counted) or counted
+        ctx.ob("C01.R4", "ack count value is len(msg.acks)", bool(counted) and counted.endswith(".acks"), ctx.w(sf, w_cnt[0]),
+               f"count written is `{norm(cntarg) if cntarg is not None else None}` (= len of `{counted}`)")
         # literal multiplier equals element width
         fmt = struct_fmt_of_prim(repo, es_r)
         width = struct.calcsize("<" + fmt) if fmt else None
@@ -1021,6 +1105,15 @@ def _taken_assign(ev, fn_node, env, target, _depth=0):
                 rec(st.body if t else st.orelse)
             elif isinstance(st, ast.Assign) and len(st.targets) == 1 and ap(st.targets[0]) == target:
                 found.append(st.value)
+            elif isinstance(st, ast.Assign) and len(st.targets) == 1 and isinstance(st.targets[0], ast.Tuple) and \
+                    target in [ap(e) for e in st.targets[0].elts]:
+                # a, b = <value>: the component of <value> at the target's position
+                i = [ap(e) for e in st.targets[0].elts].index(target)
+                if isinstance(st.value, ast.Tuple) and len(st.value.elts) == len(st.targets[0].elts):
+                    found.append(st.value.elts[i])
+                else:
+                    pick = ast.Subscript(value=st.value, slice=ast.Constant(value=i), ctx=ast.Load())
+                    found.append(ast.fix_missing_locations(ast.copy_location(pick, st.value)))
             elif isinstance(st, (ast.For, ast.While, ast.With, ast.Try)):
                 rec(st.body)
     rec(fn_node.body)
@@ -1093,6 +1186,13 @@ def _resolve_value(repo, fi, node, env, depth=0):
         v = _taken_assign(ev, fi.node, env, node.id)
         if v is not None and v is not node:
             return _resolve_value(repo, fi, v, env, depth + 1)
+        return node, fi, env
+    if isinstance(node, ast.Subscript) and isinstance(node.slice, ast.Constant) and isinstance(node.slice.value, int) \
+            and isinstance(node.value, ast.Call):
+        # component of a tuple-returning helper (`a, b = helper(..)`): follow the helper's taken return
+        inner, fi2, env2 = _resolve_value(repo, fi, node.value, env, depth + 1)
+        if isinstance(inner, ast.Tuple) and node.slice.value < len(inner.elts) and inner is not node.value:
+            return _resolve_value(repo, fi2, inner.elts[node.slice.value], env2, depth + 1)
         return node, fi, env
     if isinstance(node, ast.Call):
         target = None
@@ -1189,6 +1289,15 @@ def _num_layout(value_node, ev=None, env=None):
             if set(bv) - {0xFF}:
                 return None
             ff += len(bv)
+        elif isinstance(n, ast.Call) and isinstance(n.func, ast.Attribute) and n.func.attr == "pack" and ev is not None \
+                and isinstance(ev.ev(n.func.value, env or {}), StructVal):
+            # <precompiled struct>.pack(n): the struct object is a constant (module constant / field of a table row)
+            f = ev.ev(n.func.value, env or {}).fmt
+            for sub in ast.walk(n.func):
+                skip.add(id(sub))
+            if len(n.args) != 1:
+                return None
+            fmt = f
         elif isinstance(n, ast.Call) and ap(n.func) == "struct.pack" and n.args and const(n.args[0], str) is not None:
             f = const(n.args[0], str)
             for sub in ast.walk(n.args[0]):
@@ -1243,7 +1352,9 @@ def r7(ctx):
             node = None
             fi_n, env_n = f, dict(env)
             if sts:
-                node, fi_n, env_n = _resolve_value(repo, f, sts[-1].value, dict(env))
+                # the store taken under this frequency (several stores may sit on different branches)
+                taken = _taken_assign(ev, f.node, dict(env), sts[-1].path)
+                node, fi_n, env_n = _resolve_value(repo, f, taken if taken is not None else sts[-1].value, dict(env))
                 if isinstance(node, ast.Name):
                     node = None
             if node is None and sts:
@@ -1629,6 +1740,7 @@ def r12(ctx):
 
 
 def run(ctx):
+    r13(ctx)
     r12(ctx)
     r11(ctx)
     r10(ctx)
@@ -1640,4 +1752,125 @@ def run(ctx):
     r2_r3(ctx)
     r4(ctx)
     r5(ctx)
-    ctx.assume("value-level equality (float corner cases, text/binary guessing) is not decided statically")
+    ctx.assume("value-level equality (float corner cases; text/binary guessing beyond the ambiguous-name clause R13) is not decided statically")
+
+
+def r13(ctx):
+    """Blob variables stay bytes.  Whether a Variable/Fixed field is text or a blob is guessed from its name
+    (MessageTemplateVariable.probably_binary / probably_text).  Reading a field as bytes is always value-preserving;
+    reading it as text is not (the terminator is stripped and the value becomes a str).  So a variable of the bundled
+    template whose name carries hints from more than one of the classifier's hint lists must take the lossless reading:
+    the reader may never text-decode it.  Both predicates are evaluated by interpreting the class on every
+    Variable/Fixed variable name of message_template.msg; the reader's decision is read off the conditions that guard
+    its text-decoding return."""
+    repo = ctx.repo
+    ctx.rule("C01.R13", "blob variables stay bytes: a Variable/Fixed variable of the bundled template whose name matches more "
+                        "than one of the classifier's hint lists (ambiguous) is never text-decoded by the reader")
+    ci = repo.cls("MessageTemplateVariable")
+    mt = enum_members(repo, repo.cls("MsgType", TYPES))
+    tm = parse_template(repo.root, repo.overlay)
+    names = {}
+    for m in tm.values():
+        for b in m.blocks:
+            for v in b.vars:
+                if v.type in ("Variable", "Fixed"):
+                    names.setdefault((v.name, v.type), f"{m.name}.{b.name}")
+    ctx.floor("C01.R13", "Variable/Fixed variables in the template", len(names), 100)
+
+    def body(f):
+        return [st for st in f.node.body if not (isinstance(st, ast.Expr) and isinstance(st.value, ast.Constant))]
+    init = repo.lookup_method(ci, "__init__")
+    getters = {p_: repo.lookup_method(ci, p_) for p_ in ("probably_binary", "probably_text")}
+    ctx.require(init is not None and all(getters.values()), "C01.R13: MessageTemplateVariable lost __init__ / probably_binary / probably_text")
+    ips = [a.arg for a in init.node.args.args]
+    ctx.require(len(ips) >= 4, "C01.R13: MessageTemplateVariable.__init__(name, tp, size) changed shape")
+
+    def classify(name, typ):
+        tv = EnumVal("MsgType", "MVT_" + typ.upper(), mt["MVT_" + typ.upper()])
+        env = {ips[0]: Sym("self:" + ci.name), ips[1]: name, ips[2]: tv, ips[3]: 1}
+        run_block(ConstEval(repo, init.module), body(init), env)
+        res = {}
+        for p_, g in getters.items():
+            sp = g.node.args.args[0].arg
+            e2 = {sp + k[len(ips[0]):]: v for k, v in env.items() if k == ips[0] or k.startswith(ips[0] + ".")}
+            out = run_block(ConstEval(repo, g.module), body(g), e2)
+            if out.kind != "return" or not isinstance(out.value, bool):
+                raise AnalysisError(f"C01.R13: {p_}({name!r}) does not evaluate to a bool ({out.kind}: {out.value!r})")
+            res[p_] = out.value
+        return res
+    # the classifier's hint lists: string collections consulted by the class (directly, or through module constants / helpers)
+    fns = [init] + list(getters.values())
+    seen_f = {id(f.node) for f in fns}
+    work = list(fns)
+    while work:
+        f = work.pop()
+        for c in calls(f.node):
+            tgt = None
+            if isinstance(c.func, ast.Attribute) and isinstance(c.func.value, ast.Name) and c.func.value.id in ("self", "cls"):
+                tgt = repo.lookup_method(ci, c.func.attr)
+            elif isinstance(c.func, ast.Name):
+                cands = [g for g in repo.funcs.get(c.func.id, []) if g.cls is None and g.parent_fn is None and g.module is ci.module]
+                tgt = cands[0] if len(cands) == 1 else None
+            if tgt is not None and id(tgt.node) not in seen_f:
+                seen_f.add(id(tgt.node))
+                fns.append(tgt)
+                work.append(tgt)
+    hint_lists = []
+    for f in fns:
+        for n in walk(f.node):
+            lit = n
+            if isinstance(n, ast.Name):
+                lit = repo.module_assign(f.module, n.id)
+            elif isinstance(n, ast.Attribute) and isinstance(n.value, ast.Name) and n.value.id in ("self", "cls"):
+                lit = repo.class_attr(ci, n.attr)
+            if isinstance(lit, ast.Call) and (ap(lit.func) or "") in ("frozenset", "set", "tuple") and len(lit.args) == 1:
+                lit = lit.args[0]
+            if isinstance(lit, (ast.Tuple, ast.List, ast.Set)) and len(lit.elts) >= 3 and \
+                    all(isinstance(e, ast.Constant) and isinstance(e.value, str) for e in lit.elts):
+                toks = tuple(e.value for e in lit.elts)
+                if toks not in hint_lists:
+                    hint_lists.append(toks)
+    ctx.floor("C01.R13", "hint lists of the name classifier", len(hint_lists), 2)
+    # the reader's text-decoding returns and the conditions on the two predicates that guard them
+    rf = None
+    for f in [g for gl in repo.funcs.values() for g in gl]:
+        if f.module.rel == DES and any(isinstance(n, ast.Attribute) and n.attr == "probably_text" for n in walk(f.node)):
+            rf = f
+    ctx.require(rf is not None, "C01.R13: no reader function consults probably_text")
+    text_rets = [r for r in walk(rf.node) if isinstance(r, ast.Return) and r.value is not None and
+                 any(isinstance(c, ast.Call) and isinstance(c.func, ast.Attribute) and c.func.attr == "decode" for c in ast.walk(r.value))]
+    ctx.floor("C01.R13", "text-decoding returns in the reader", len(text_rets), 1)
+
+    def text_decoded(pb, pt):
+        for r in text_rets:
+            possible = True
+            for c in conditions(r, rf.node):
+                attrs = {n.attr for n in ast.walk(c.test) if isinstance(n, ast.Attribute) and n.attr in getters}
+                if not attrs:
+                    continue
+                env = {}
+                for n in ast.walk(c.test):
+                    if isinstance(n, ast.Attribute) and n.attr in getters and ap(n):
+                        env[ap(n)] = pb if n.attr == "probably_binary" else pt
+                val = ConstEval(repo, rf.module).ev(c.test, env)
+                if isinstance(val, (Sym, CallVal)):
+                    continue
+                if bool(val) != c.polarity:
+                    possible = False
+                    break
+            if possible:
+                return True
+        return False
+    n_amb = 0
+    for (name, typ), where_ in sorted(names.items()):
+        hits = [i for i, toks in enumerate(hint_lists) if any(t in name for t in toks)]
+        if len(hits) < 2:
+            continue
+        n_amb += 1
+        cl = classify(name, typ)
+        ok = not text_decoded(cl["probably_binary"], cl["probably_text"])
+        ctx.ob("C01.R13", f"ambiguously named variable {name} ({typ}) is read as bytes", ok, rf.where,
+               f"{where_}.{name} matches hints of {len(hits)} lists, is classified binary={cl['probably_binary']} "
+               f"text={cl['probably_text']} and reaches the reader's text-decoding return: a blob that happens to be "
+               f"NUL-terminated UTF-8 comes back as a str without its last byte")
+    ctx.floor("C01.R13", "ambiguously named variables", n_amb, 3)
